@@ -155,6 +155,36 @@ def run_case(desc, V):
         claims += mv_eq_claims('a - s', a - s_, R.sub(A, S))
         claims += mv_eq_claims('s + a', s_ + a, R.add(S, A))
         claims += mv_eq_claims('a + s', a + s_, R.add(A, S))
+        # operands built through the public constructor with the keys in every container kind
+        import numpy as _np
+        builders = {'list': lambda ks, vs: alg.multivector(keys=list(ks), values=list(vs)),
+                    'tuple': lambda ks, vs: alg.multivector(keys=tuple(ks), values=list(vs)),
+                    'ndarray': lambda ks, vs: alg.multivector(keys=_np.array(ks, dtype=int), values=list(vs)),
+                    'mapping': lambda ks, vs: alg.multivector(dict(zip(ks, vs))),
+                    'names': lambda ks, vs: alg.multivector(keys=[alg.bin2canon[k] for k in ks], values=list(vs)),
+                    'values-tuple': lambda ks, vs: alg.multivector(keys=tuple(ks), values=tuple(vs))}
+        if desc['ka'] and not alg.graded:
+            for bname, build in builders.items():
+                try:
+                    a2 = build(list(a.keys()), list(a.values()))
+                    claims += mv_eq_claims(f'built-{bname}:neg', -a2, R.neg(A), fkey=f'forms|constructed|{bname}')
+                    claims += mv_eq_claims(f'built-{bname}:add', a2 + b, R.add(A, B), fkey=f'forms|constructed|{bname}')
+                    claims += mv_eq_claims(f'built-{bname}:rsub', b - a2, R.sub(B, A), fkey=f'forms|constructed|{bname}')
+                    claims += mv_eq_claims(f'built-{bname}:reverse', ~a2, ops.ref_unary(km, 'reverse', A), fkey=f'forms|constructed|{bname}')
+                    claims += mv_eq_claims(f'built-{bname}:grade', a2.grade(1), {k: v for k, v in A.items() if popcount(k) == 1}, fkey=f'forms|constructed|{bname}')
+                except TypeError as e:
+                    claims.append(Fail(f'built-{bname}:raises', f'a multivector constructed with keys given as {bname} cannot be used as an operand: TypeError: {e}',
+                                       fkey=f'forms|constructed|{bname}|raises'))
+        # grade selections spelled in any order / with repetitions denote the same selection
+        for gs in ((2, 1), (1, 0), (1, 1), (2, 0, 1)):
+            if max(gs) > alg.d:
+                continue
+            want = {k: v for k, v in A.items() if popcount(k) in gs}
+            for form, call in (('args', lambda: a.grade(*gs)), ('tuple', lambda: a.grade(tuple(gs)))):
+                try:
+                    claims += mv_eq_claims(f'grade{gs}:{form}', call(), want, fkey='forms|grade-order')
+                except KeyError as e:
+                    claims.append(Fail(f'grade{gs}:{form}:raises', f'a.grade{gs} raises KeyError {e} (the same grades in ascending order are accepted)', fkey='forms|grade-order|raises'))
         for i, (src, want) in enumerate(progs.items()):
             ns = {}
             exec(f'def c04_form{i}(a, b):\n    return {src}\n', ns)
